@@ -14,9 +14,12 @@ import (
 	"encoding/json"
 	"fmt"
 	"os"
+	"runtime"
 	"strconv"
 	"strings"
+	"sync/atomic"
 	"testing"
+	"time"
 
 	"github.com/goptics/varmq/internal/vt"
 )
@@ -117,6 +120,43 @@ func dumpLog(path string, s *vt.Sched) {
 	}
 }
 
+// watchdog: library code that loops without reaching a synchronisation operation (e.g. a
+// corrupted linked list) cannot be preempted by the controlled scheduler; a real-time watchdog
+// turns it into a recorded crash of that episode, and the driver resumes after it.
+var (
+	wdEpisode atomic.Value // string "family seed strategy index"
+	wdStart   atomic.Int64
+	wdOut     *bufio.Writer
+	wdTrace   string
+)
+
+func startWatchdog() {
+	go func() {
+		var ms runtime.MemStats
+		for {
+			time.Sleep(40 * time.Millisecond)
+			ep, _ := wdEpisode.Load().(string)
+			if ep == "" {
+				continue
+			}
+			runtime.ReadMemStats(&ms)
+			age := time.Since(time.Unix(0, wdStart.Load()))
+			if ms.HeapAlloc > 1200<<20 || age > 20*time.Second {
+				reason := "runaway-memory"
+				if age > 20*time.Second {
+					reason = "runaway-time"
+				}
+				if s := vt.S; s != nil && wdTrace != "" {
+					f := strings.Fields(ep)
+					dumpLog(fmt.Sprintf("%s/crash-%s-%s-%s.log", wdTrace, f[0], f[1], f[2]), s)
+				}
+				fmt.Fprintf(os.Stderr, "#CRASH %s %s heap=%dMB age=%s\n", ep, reason, ms.HeapAlloc>>20, age)
+				os.Exit(3)
+			}
+		}
+	}()
+}
+
 func TestVerifCtl(t *testing.T) {
 	out := os.Getenv("VERIF_OUT")
 	if out == "" {
@@ -142,7 +182,10 @@ func TestVerifCtl(t *testing.T) {
 		}
 	}
 	tracedir := os.Getenv("VERIF_TRACEDIR")
-	fo, err := os.Create(out)
+	wdTrace = tracedir
+	skip, _ := strconv.Atoi(os.Getenv("VERIF_SKIP"))
+	startWatchdog()
+	fo, err := os.OpenFile(out, os.O_CREATE|os.O_WRONLY|os.O_APPEND, 0o644)
 	if err != nil {
 		t.Fatal(err)
 	}
@@ -156,7 +199,10 @@ func TestVerifCtl(t *testing.T) {
 		sd, _ := strconv.ParseInt(parts[1], 10, 64)
 		for _, f := range families {
 			if f.name == parts[0] {
+				wdStart.Store(time.Now().UnixNano())
+				wdEpisode.Store(fmt.Sprintf("%s %d %s 0", f.name, sd, parts[2]))
 				res, s, _ := runEpisode(f, sd, parts[2])
+				wdEpisode.Store("")
 				enc.Encode(res)
 				if tracedir != "" {
 					dumpLog(fmt.Sprintf("%s/%s-%d-%s.log", tracedir, f.name, sd, parts[2]), s)
@@ -165,18 +211,27 @@ func TestVerifCtl(t *testing.T) {
 		}
 		return
 	}
+	idx := 0
 	for _, f := range families {
 		if len(want) > 0 && !want[f.name] {
 			continue
 		}
 		for i := 0; i < episodes; i++ {
+			idx++
+			if idx <= skip {
+				continue
+			}
 			seed := seed0*1000003 + int64(i)
 			strategy := "random"
 			if i%3 == 2 {
 				strategy = "pct"
 			}
+			wdStart.Store(time.Now().UnixNano())
+			wdEpisode.Store(fmt.Sprintf("%s %d %s %d", f.name, seed, strategy, idx))
 			res, s, _ := runEpisode(f, seed, strategy)
+			wdEpisode.Store("")
 			enc.Encode(res)
+			w.Flush()
 			if tracedir != "" && (len(res.Violations) > 0 || i < 2) {
 				dumpLog(fmt.Sprintf("%s/%s-%d-%s.log", tracedir, f.name, seed, strategy), s)
 			}
